@@ -7,6 +7,8 @@ EXTENDS CactusRef, Json
 CONSTANTS EmitCover          \* K > 0: print a script line for about 1/K of the explored (state, call)
                              \* transitions (K = 1: all of them); 0: none
 
+CONSTANTS EmitOut            \* 1: print <<"OUT", call sequence, state after the call>> at every return (C09)
+
 VARIABLE hist                \* sequence of top-level public calls (hidden by VIEW)
 
 OpsCore == {"New", "CloneRoot", "CloneStored", "DropRoot", "Store", "Take", "DropStored",
@@ -44,6 +46,9 @@ MenuPanic == {NoScript, Sc("Panic", 0, 0)}
 OpsConsume == {"New", "CloneRoot", "DropRoot", "AdoptStore", "TakeUnadopt", "Store", "Downgrade", "WeakDrop", "Upgrade",
                "TryUnwrap", "GetMut", "MakeMut", "IntoRaw", "FromRaw", "IncStrong", "DecStrong", "DropDetached"}
 VPurge == [bust |-> "owned", loop |-> "ignored", consume |-> "purge"]
+OpsOrder == {"New", "CloneRoot", "DropRoot", "AdoptStore", "TakeUnadopt", "Downgrade", "WeakDrop", "Upgrade"}
+CapsO == [strong |-> 3, stored |-> 2, rec |-> 2, weak |-> 1, storedW |-> 1, over |-> FALSE, elide |-> FALSE, scripted |-> 1]
+CapsO3 == [strong |-> 2, stored |-> 1, rec |-> 1, weak |-> 0, storedW |-> 0, over |-> FALSE, elide |-> FALSE, scripted |-> 1]
 OpsDtorQ == {"New", "CloneRoot", "DropRoot", "AdoptStore", "Downgrade", "StoreWeak"}
 OpsCoreQ == {"New", "CloneRoot", "DropRoot", "Store", "Take", "DropStored", "AdoptStore", "TakeUnadopt", "Adopt"}
 OpsConsumeQ == {"New", "CloneRoot", "DropRoot", "AdoptStore", "Downgrade", "WeakDrop",
@@ -56,14 +61,22 @@ MCInit == Init /\ hist = <<>>
 
 CallRec == [op |-> ob'.call.op, a |-> ob'.call.a, b |-> ob'.call.b,
             d |-> IF ob'.call.op = "New" THEN led'.dtor[ob'.call.a] ELSE NoScript]
+\* what a program can observe of the state after a call, without the order of destruction
+\* inside the call (C09: this must be a function of the call sequence alone)
+Proj(h, x) == [mem |-> h.mem, strong |-> h.strong, weak |-> h.weak, vinit |-> h.vinit,
+               links |-> [o \in Obj |-> {<<k[1], k[2], h.links[o][k]>> : k \in {k \in Key : h.links[o][k] > 0}}],
+               nd |-> x.nd, nf |-> x.nf, ub |-> x.ub, ret |-> x.ret,
+               dset |-> {x.dlog[i] : i \in 1..Len(x.dlog)}]
 MCNext ==
   \/ /\ Call
      /\ hist' = Append(hist, CallRec)
+     /\ (EmitOut = 1 /\ ctl'.stack = <<>>) => PrintT(<<"OUT", ToJson(hist'), ToJson(Proj(heap', ob')), ToJson(ob'.dlog)>>)
      /\ (EmitCover > 0 /\ RandomElement(1..EmitCover) = 1) => PrintT(<<"SCRIPT", ToJson(hist')>>)
   \/ /\ Micro
      /\ hist' = hist
      \* behaviours that end in a process abort are printed (sampled) as scripts for child mode
      /\ (ctl'.mode = "aborted" /\ RandomElement(1..10) = 1) => PrintT(<<"ABORT", ToJson(hist)>>)
+     /\ (EmitOut = 1 /\ ctl'.stack = <<>>) => PrintT(<<"OUT", ToJson(hist), ToJson(Proj(heap', ob')), ToJson(ob'.dlog)>>)
 
 MCSpec == MCInit /\ [][MCNext]_<<vars, hist>>
 
@@ -84,6 +97,7 @@ MC_C06 == Cex("C06", C06)
 MC_C08 == Cex("C08", C08)
 MC_C14 == Cex("C14", C14)
 MC_C16 == Cex("C16", C16)
+MC_C15 == Cex("C15", C15)
 MC_C12 == Cex("C12", C12 /\ C01 /\ C03 /\ C05)
 MC_C13 == Cex("C13", C13)
 MC_C13x == Cex("C13x", C13x)
